@@ -16,7 +16,7 @@ RULE = ("graphs of <= 16 nodes from shape classes (chain, in-tree, wide fan-out,
 EXPLANATION = ("executable definitions proved equal to the path-based definitions (tfi/tfo, depth table, cycle test, topological checker, "
                "reconvergence, k-cut width and separation); models tied to circuit.py / props.levelize by correspondence on every shape class")
 SHARD = 40
-HASHSEEDS = {"quick": [0, 1], "thorough": [0, 1, 2, 3]}
+HASHSEEDS = {"quick": [0, 1], "thorough": [0, 1, 2]}
 
 NAMES = "abcdefghijklmnopqrstuvwxyz"
 
@@ -190,7 +190,7 @@ def handmade():
 
 
 def generate(rng, tier):
-    n = 150 if tier == "quick" else 1500
+    n = 150 if tier == "quick" else 1000
     return handmade() + [gen_case(rng) for _ in range(n)]
 
 
